@@ -239,12 +239,41 @@ HierSmall == {
     << Bin("UPlain", One, Two), U3("ULegGrand", One, Two, Three), U3("ULegGrand", One, Two, KI(4)) >>,
     << MVV("x"), Bin("UMVTag", Str("x"), M1), Bin("UMVTag", Str("x"), M2) >> }
 
+(***************************************************************************)
+(* Round 3: leaf constants that are not equal to themselves.  N1, N2 are   *)
+(* two float NaN OBJECTS (the same name in two specifications of a history *)
+(* is one and the same Python float).  Directly in a scalar field of every *)
+(* arity / kind of class (built in, user dataclass, plain child, legacy    *)
+(* child, pure legacy), in a tuple field, below single-child nodes and     *)
+(* below a tuple field.  The laws they are there for: an object is ==      *)
+(* itself and not != itself whatever it holds, finds itself as a dict key, *)
+(* its copies do too.                                                      *)
+(***************************************************************************)
+N1 == KN(1)   N2 == KN(2)
+PowN1 == Bin("Power", x, N1)
+FamNaNF == <<
+    PowN1, Bin("Power", x, N2), Bin("Power", N1, x), Bin("Subscript", x, N1),
+    CmpN(x, Str("<"), N1), IfN(x, N1, z), CseN(N1, NoneV, EvalScope),
+    Ch("Sum", << x, N1 >>), Ch("Sum", << x, N2 >>), CallN(ff, << N1 >>),
+    Un("LogicalNot", PowN1), Ch("Sum", << x, PowN1 >>) >>
+FamNaNU == <<
+    Bin("URoot", x, N1), Bin("URoot", x, N2), Bin("UPlain", x, N1), U3("UChild", x, N1, y),
+    U3("ULegChild", x, y, N1), U3("ULegChild", x, N1, y), Bin("ULeg", x, N1), Bin("ULeg", x, N2),
+    Bin("URoot", x, Bin("URoot", x, N1)) >>
+NaNSpecs == { FamNaNF[k] : k \in 1..Len(FamNaNF) } \cup { FamNaNU[k] : k \in 1..Len(FamNaNU) }
+\* quick tier: one per position kind
+NaNSpecsQuick == { PowN1, Bin("Power", N1, x), CmpN(x, Str("<"), N1), Ch("Sum", << x, N1 >>),
+                   Un("LogicalNot", PowN1), Ch("Sum", << x, PowN1 >>),
+                   Bin("URoot", x, N1), Bin("UPlain", x, N1), U3("ULegChild", x, y, N1),
+                   U3("ULegChild", x, N1, y), Bin("ULeg", x, N1) }
+
 \* constructor arguments the class refuses
 FamCtorErr == << CmpN(x, Str("<<"), y), CmpN(x, Str("<"), y) >>
 
 Families == << FamNames, FamNoField, FamTagVar, FamChildrenOnly, FamSum, FamQuot, FamPowShift,
                FamUnary, FamCmp, FamIf, FamCall, FamCallKw, FamSubLook, FamCse, FamSubstDeriv,
-               FamUser2, FamUser3, FamNested, FamCtorErr, FamHier, FamHierU, FamHierD >>
+               FamUser2, FamUser3, FamNested, FamCtorErr, FamHier, FamHierU, FamHierD,
+               FamNaNF, FamNaNU >>
 
 AllSpecs == UNION { { Families[i][k] : k \in 1..Len(Families[i]) } : i \in 1..Len(Families) }
 
@@ -274,7 +303,11 @@ RepPairs == {
     << U3("ULegChild", One, Two, M1), U3("ULegChild", One, Two, M2) >>,
     << U3("ULegChild", One, Two, Three), U3("UChild", One, Two, Three) >>,
     << IfN(x, M1, z), IfN(x, M2, z) >>,
-    << Bin("Power", x, Two), Bin("Power", x, KF(2, 1)) >> }
+    << Bin("Power", x, Two), Bin("Power", x, KF(2, 1)) >>,
+    << PowN1, PowN1 >>,
+    << Ch("Sum", << x, N1 >>), Ch("Sum", << x, N1 >>) >>,
+    << Bin("URoot", x, N1), Bin("URoot", x, N2) >>,
+    << U3("ULegChild", x, y, N1), U3("ULegChild", x, y, N1) >> }
 
 RepPairsQuick == {
     << Ch("Sum", << x, One >>), Ch("Sum", << x, OneF >>) >>,
@@ -290,7 +323,8 @@ RepPairsQuick == {
     << Bin("ULeg", One, M1), Bin("ULeg", One, M2) >>,
     << U3("UChild", One, Two, M1), U3("UChild", One, Two, M2) >>,
     << U3("ULegChild", One, Two, Three), U3("ULegChild", One, Two, KF(3, 1)) >>,
-    << U3("ULegChild", One, Two, M1), U3("ULegChild", One, Two, M2) >> }
+    << U3("ULegChild", One, Two, M1), U3("ULegChild", One, Two, M2) >>,
+    << PowN1, Ch("Sum", << x, N1 >>) >> }
 RepTriplesQuick == {
     << Ch("Sum", << x, One >>), Ch("Sum", << x, OneF >>), Ch("Sum", << x, OneB >>) >>,
     << Bin("URoot", One, Two), Bin("UPlain", One, Two), Bin("ULeg", One, Two) >>,
